@@ -946,3 +946,130 @@ func (h H) transferTimeoutAnswers(rule string) {
 	sl := h.fn("raft:(*Raft).stateLoop")
 	h.C.Check(rule+" dispatched", "(*Raft).stateLoop transfer timer", len(h.P.CallsTo(sl, fn)) == 1, h.fpos(sl), "stateLoop must dispatch the transfer timer to onTransferTimeout")
 }
+
+// batchHandedOverAtClose (C15.5c): runBatch collects client requests into a
+// batch and hands it to the raft goroutine; when the node closes, a batch it
+// is still holding must be handed over before newEntryCh is closed — Serve's
+// drain answers it with ErrServerClosed — or its submitters wait for ever.
+func (h H) batchHandedOverAtClose(rule string) {
+	fn := h.fn("raft:(*Raft).runBatch")
+	fi := h.P.Info(fn)
+	n := 0
+	core.Instrs(fn, func(in ssa.Instruction) {
+		c, ok := in.(*ssa.Call)
+		if !ok {
+			return
+		}
+		b, isB := c.Common().Value.(*ssa.Builtin)
+		if !isB || b.Name() != "close" || fi.Sym(c.Common().Args[0]).String() != "Raft.newEntryCh" {
+			return
+		}
+		n++
+		res := fi.MustCrossOrPass(c, func(a core.Atom) bool {
+			return a.Op == "==" && a.R == "nil" && strings.HasPrefix(a.L, "phi(")
+		}, nil, func(x ssa.Instruction) bool {
+			if s, ok := x.(*ssa.Send); ok {
+				return fi.Sym(s.Chan).String() == "Raft.newEntryCh" && strings.HasPrefix(fi.Sym(s.X).String(), "phi(")
+			}
+			return false
+		})
+		h.C.Check(rule, fmt.Sprintf("(*Raft).runBatch close(newEntryCh)#%d", n), res.OK, h.pos(c), "the entry channel is closed while runBatch may still hold a batch of client requests: "+res.Witness)
+	})
+	h.C.Floor(rule+" (close(newEntryCh) in runBatch)", n, 1)
+	h.onlyCallers(rule+" who-may-call", "raft:(*Raft).runBatch", "(*Raft).Serve")
+}
+
+// replicationLearnsConfig (C17.11): a replication sends idle heartbeats only
+// to voters (r.node.Voter). Its copy of the node is refreshed from every leader
+// update that carries a configuration, and the leader attaches the
+// configuration whenever it changed; otherwise a node promoted to voter hears
+// nothing from an idle leader, times out and campaigns against it.
+func (h H) replicationLearnsConfig(rule string) {
+	fn := h.fn("raft:(*replication).onLeaderUpdate")
+	fi := h.P.Info(fn)
+	for k, r := range core.Returns(fn) {
+		res := fi.MustCrossOrPass(r, func(a core.Atom) bool {
+			return a.Implies(core.MkAtom("leaderUpdate.config", "==", "nil"))
+		}, nil, func(in ssa.Instruction) bool {
+			st, ok := in.(*ssa.Store)
+			return ok && fi.Sym(st.Addr).String() == "replication.node" && fi.Sym(st.Val).String() == "leaderUpdate.config.Nodes[replication.status.id]"
+		})
+		h.C.Check(rule+" node-refreshed", fmt.Sprintf("(*replication).onLeaderUpdate return#%d", k+1), res.OK, h.pos(r), "a leader update carrying a configuration does not refresh the replication's copy of its node: "+res.Witness)
+	}
+	// the view and the leader's last index / commit index are always taken over
+	for _, w := range []struct{ addr, val string }{
+		{"replication.log", "leaderUpdate.log"},
+		{"replication.ldrLastIndex", "(*log.Log).LastIndex(leaderUpdate.log)"},
+		{"appendReq.ldrCommitIndex", "leaderUpdate.commitIndex"},
+	} {
+		ok, why := h.storesOnEveryPath(fn, w.addr, func(v string, _ *ssa.Store) bool { return v == w.val })
+		h.C.Check(rule+" update-taken-over", "(*replication).onLeaderUpdate "+w.addr, ok, h.fpos(fn), "a leader update must be taken over completely ("+w.addr+" := "+w.val+"): "+why)
+	}
+	// heartbeat timer only for voters, armed with hbTimeout/2
+	cl := h.fn("raft:(*replication).checkLeaderUpdate")
+	cfi := h.P.Info(cl)
+	reset := h.fn("raft:(*safeTimer).reset")
+	n := 0
+	for k, c := range h.P.CallsTo(cl, reset) {
+		n++
+		arg := h.argStr(c, 1)
+		okIv := false
+		var div int
+		if _, err := fmt.Sscanf(arg, "(replication.hbTimeout / Duration(%d))", &div); err == nil && div >= 2 {
+			okIv = true
+		}
+		h.C.Check(rule+" heartbeat-interval", h.site(cl, reset, k), okIv, h.pos(c.(ssa.Instruction)), "idle heartbeats must be sent at hbTimeout/k, k >= 2 (the follower's election timeout is at least hbTimeout); found "+arg)
+		h.gateLoose(rule+" heartbeats-for-voters", h.site(cl, reset, k), c.(ssa.Instruction), core.BoolAtom("replication.node.Voter", true))
+	}
+	h.C.Check(rule+" heartbeat-timer-armed", "(*replication).checkLeaderUpdate", n >= 1, h.fpos(cl), "an idle replication never arms its heartbeat timer: voters hear nothing from an idle leader")
+	_ = cfi
+	// the leader attaches the configuration when it changed
+	se := h.fn("raft:(*leader).storeEntry")
+	nf := h.fn("raft:(*leader).notifyFlr")
+	m := 0
+	for k, c := range h.P.CallsTo(se, nf) {
+		m++
+		arg := h.argStr(c, 1)
+		ok := strings.Contains(arg, "leader.Raft.storage.configs.Latest.Index")
+		h.C.Check(rule+" config-attached-when-changed", h.site(se, nf, k), ok, h.pos(c.(ssa.Instruction)), "storeEntry must tell the replications whether the configuration changed (compare Latest.Index before/after); found "+arg)
+	}
+	h.C.Floor(rule+" (notifyFlr in storeEntry)", m, 1)
+	nfi := h.P.Info(nf)
+	okCfg := false
+	core.Instrs(nf, func(in ssa.Instruction) {
+		if st, ok := in.(*ssa.Store); ok && strings.HasSuffix(nfi.Sym(st.Addr).String(), ".config") {
+			r := nfi.MustCross(in, func(a core.Atom) bool { return a.Op == "true" && a.L == "$1" })
+			okCfg = r.OK
+		}
+	})
+	h.C.Check(rule+" config-attached-when-changed", "(*leader).notifyFlr", okCfg, h.fpos(nf), "notifyFlr(includeConfig=true) must attach the latest configuration to the update")
+}
+
+// leaderHintProtection (C17.3b): Raft.leader != 0 is what makes the vote
+// handler turn away candidates that have no transfer permission. Outside the
+// handlers and role hooks, stateLoop may clear it only when the connection of
+// that very leader dropped; clearing it on any other peer's disconnect lets a
+// disruptive candidate win votes and raise terms while the leader is alive.
+func (h H) leaderHintProtection(rule string) {
+	sl := h.fn("raft:(*Raft).stateLoop")
+	fi := h.P.Info(sl)
+	setLeader := h.fn("raft:(*Raft).setLeader")
+	n := 0
+	for k, c := range h.P.CallsTo(sl, setLeader) {
+		if h.argStr(c, 1) != "0" {
+			h.C.Check(rule+" stateLoop-only-clears", h.site(sl, setLeader, k), false, h.pos(c.(ssa.Instruction)), "stateLoop sets a leader itself: "+h.argStr(c, 1))
+			continue
+		}
+		n++
+		r := fi.MustCross(c.(ssa.Instruction), func(a core.Atom) bool {
+			return a.Op == "==" && (a.L == "Raft.leader" && strings.HasPrefix(a.R, "select@") || a.R == "Raft.leader" && strings.HasPrefix(a.L, "select@"))
+		})
+		h.C.Check(rule+" cleared-only-for-the-disconnected-leader", h.site(sl, setLeader, k), r.OK, h.pos(c.(ssa.Instruction)), "the leader hint is cleared although the peer that disconnected is not known to be the leader: "+r.Witness)
+	}
+	h.C.Floor(rule+" (setLeader(0) in stateLoop)", n, 1)
+	// who may call setLeader at all
+	h.onlyCallers(rule+" who-may-call", "raft:(*Raft).setLeader",
+		"(*Raft).stateLoop", "(*Raft).onAppendEntriesRequest", "(*Raft).onInstallSnapRequest", "(*Raft).onTimeoutNowRequest",
+		"(*follower).onTimeout", "(*candidate).onVoteResult", "(*leader).release", "(*leader).checkQuorum", "(*leader).checkReplUpdates",
+		"(*Raft).setCommitIndex", "(*Raft).changeConfig", "(*Raft).commitConfig")
+}
